@@ -673,6 +673,59 @@ def s_big_genmul():
         st.sampled_from([0, 0, 1, -1, 2])))
 
 
+# ------------------------------------------------------------------------------------------------ long histories
+
+
+def o_genmul_history(case):
+    """one generator object, many multiplications: the answer never depends on how many came before.  The generator's
+    entropy source answers differently every time it is asked (as os.urandom does)."""
+    import hashlib
+    spec, cfg, calls, seed = case["curve"], case["cfg"], case["calls"], case["seed"]
+    c = ref_curve(spec) if not isinstance(spec, str) else REF[spec]
+    n = c.n
+    asked = [0]
+
+    def entropy_f(nbytes):
+        asked[0] += 1
+        return (hashlib.sha256(b"verif history %d %d" % (seed, asked[0])).digest() * (nbytes // 32 + 1))[:nbytes]
+    g = ecgen.build_generator(spec, cfg, entropy_f=entropy_f)
+    toy = not isinstance(spec, str)
+    table = None
+    if toy:
+        table, P = [None], c.G
+        for _ in range(n - 1):
+            table.append(P)
+            P = c.add(P, c.G)
+    checked = 0
+    for i in range(1, calls + 1):
+        k = (i * 2654435761 + seed) % (3 * n) - n if toy else (i * 0x9E3779B97F4A7C15F39CC0605CEDC835 + seed) % n
+        got = g * k if i % 2 else k * g
+        # every call is judged on toy curves; on the production curves the calls around powers of two and multiples of 4096
+        near = min(i & (i - 1), (i + 1) & i, (i - 1) & (i - 2), (i + 2) & (i + 1), (i - 2) & (i - 3) if i > 2 else 1) == 0 or i % 4096 < 2
+        if toy or near or i == calls:
+            want = table[k % n] if toy else c.mul_fast(k, c.G)
+            expect(got, want, c, "genmul:history:call-count-dependent", "%s Generator/%s, multiplication number %d on this object (entropy "
+                   "source asked %d times so far): %s" % (c.name, cfg, i, asked[0], ("G * %d" if i % 2 else "%d * G") % k))
+            checked += 1
+    return [curve_label(spec), "cfg=" + cfg, "calls>65536" if calls > 65536 else "calls<=65536", "calls>131072" if calls > 131072 else "calls<=131072"]
+
+
+def cases_genmul_history(tier):
+    toys = ecgen.toy_specs(200)
+    # (a pure-Python multiplication costs a millisecond whatever the curve: 256 additions by design)
+    yield {"curve": toys[3], "cfg": "pure", "calls": 3000, "seed": 2}
+    if ecgen.OPENSSL_PRESENT:
+        yield {"curve": "k1", "cfg": "openssl", "calls": 66000, "seed": 3}
+    else:
+        yield {"curve": toys[len(toys) // 2], "cfg": "pure", "calls": 66000, "seed": 1}
+    if tier != "quick":
+        yield {"curve": toys[len(toys) // 2], "cfg": "pure", "calls": 70000, "seed": 1}
+        yield {"curve": toys[-1], "cfg": "pure", "calls": 300000, "seed": 4}
+        yield {"curve": "k1", "cfg": "pure", "calls": 66000, "seed": 5}
+        if ecgen.OPENSSL_PRESENT:
+            yield {"curve": "r1", "cfg": "openssl", "calls": 140000, "seed": 6}
+
+
 # ------------------------------------------------------------------------------------------------ shared key
 
 
@@ -772,6 +825,12 @@ SUBCHECKS = [
              rule="generators constructed (pure / OpenSSL class) with entropy_f returning 0, 1, n-1, n, n+1, 2^256-1 or arbitrary bytes: the "
                   "blinding factor is entropy mod n and G*k (blinded), k*G, raw_mul(k), multiply(G,k) all equal the reference k*G, for k "
                   "free or tied to the blinding factor b (k = -b, -2b, b, 1-b, 0, each + j*n); the shipped generator is checked on the same k"),
+    SubCheck("generator_mul_history", o_genmul_history, cases=cases_genmul_history, exhaustive=False, guard_s=(240, 3000),
+             nontrivial=lambda c, l: "calls>65536" in l,
+             rule="one freshly constructed generator whose entropy source answers differently on every call, then 3000 / 66000 (thorough: 70000, "
+                  "300000) alternating G*k and k*G on that one object with k spread over [-n, 2n): every call on toy "
+                  "curves, and the calls around powers of two and multiples of 4096 on secp256k1 / secp256r1, equal the reference; "
+                  "non-trivial = more than 65536 calls on one object"),
     SubCheck("shared_public_key", o_shared, strategy=s_shared, budget=(300, 10000),
              rule="generate_shared_public_key(d1, d2*G) == generate_shared_public_key(d2, d1*G) == (d1*d2 mod n)*G on shipped / OpenSSL / "
                   "(a quarter of cases) pure generators; d2 free, = d1, = 1/d1, = -d1"),
